@@ -145,7 +145,9 @@ impl Table {
                 )?;
             }
         }
-        Ok(())
+        // The writer is typically a buffered CFB stream, which would discard
+        // any error when it is flushed on drop, so flush it explicitly.
+        writer.flush()
     }
 }
 
